@@ -85,6 +85,9 @@ func xgUpdates(r *Rng) osm.Updates {
 }
 
 func xgBounds(r *Rng) *osm.Bounds {
+	if r.Chance(12) {
+		return &osm.Bounds{} // present, all coordinates zero
+	}
 	return &osm.Bounds{MinLat: xgFloat(r), MaxLat: xgFloat(r), MinLon: xgFloat(r), MaxLon: xgFloat(r)}
 }
 
@@ -442,9 +445,27 @@ func (w *xw) open(name string, attrs [][2]string, selfClose bool) {
 	}
 }
 func (w *xw) close(name string) { w.ws(); w.b.WriteString("</" + name + ">") }
+
+// leaf writes an element without children: self-closed, or as an explicit start/end pair (with layout
+// noise between the two tags when enabled)
+func (w *xw) leaf(name string, attrs [][2]string) {
+	if w.r.Chance(60) {
+		w.open(name, attrs, true)
+		return
+	}
+	w.open(name, attrs, false)
+	w.close(name)
+}
 func (w *xw) unknownElem() {
 	if w.unknown && w.r.Chance(20) {
-		w.b.WriteString(`<x-extension flag="1"><x-inner>text</x-inner></x-extension>`)
+		// elements outside the OSM vocabulary, some named like elements of other vocabularies
+		w.b.WriteString([]string{
+			`<x-extension flag="1"><x-inner>text</x-inner></x-extension>`,
+			`<meta osm_base="2020-01-01T00:00:00Z"> <x-inner/> </meta>`,
+			`<link rel="self" href="https://example.test/"> </link>`,
+			`<br></br>`,
+			`<x:ext xmlns:x="https://example.test/ns" x:flag="1"/>`,
+		}[w.r.Intn(5)])
 	}
 }
 
@@ -476,7 +497,7 @@ func (w *xw) bounds(b *osm.Bounds) {
 	if b == nil {
 		return
 	}
-	w.open("bounds", [][2]string{{"minlat", xwF(b.MinLat)}, {"minlon", xwF(b.MinLon)}, {"maxlat", xwF(b.MaxLat)}, {"maxlon", xwF(b.MaxLon)}}, true)
+	w.leaf("bounds", [][2]string{{"minlat", xwF(b.MinLat)}, {"minlon", xwF(b.MinLon)}, {"maxlat", xwF(b.MaxLat)}, {"maxlon", xwF(b.MaxLon)}})
 }
 
 func (w *xw) updates(us osm.Updates) {
@@ -494,7 +515,7 @@ func (w *xw) updates(us osm.Updates) {
 		if u.Reverse {
 			a = append(a, [2]string{"reverse", "true"})
 		}
-		w.open("update", a, true)
+		w.leaf("update", a)
 	}
 }
 
@@ -513,7 +534,7 @@ func (w *xw) wayNodes(ns osm.WayNodes) {
 		if n.Lon != 0 {
 			a = append(a, [2]string{"lon", xwF(n.Lon)})
 		}
-		w.open("nd", a, true)
+		w.leaf("nd", a)
 	}
 }
 
@@ -521,7 +542,7 @@ func (w *xw) node(n *osm.Node) {
 	a := w.meta(int64(n.ID), n.User, n.UserID, n.Visible, n.Version, n.ChangesetID, n.Timestamp, n.Committed)
 	a = append(a, [2]string{"lat", xwF(n.Lat)}, [2]string{"lon", xwF(n.Lon)})
 	if len(n.Tags) == 0 && w.r.Bool() {
-		w.open("node", a, true)
+		w.leaf("node", a)
 		return
 	}
 	w.open("node", a, false)
@@ -561,7 +582,7 @@ func (w *xw) relation(x *osm.Relation) {
 			a = append(a, [2]string{"orientation", strconv.Itoa(int(m.Orientation))})
 		}
 		if len(m.Nodes) == 0 {
-			w.open("member", a, true)
+			w.leaf("member", a)
 		} else {
 			w.open("member", a, false)
 			w.wayNodes(m.Nodes)
@@ -645,21 +666,21 @@ func (w *xw) note(n *osm.Note) {
 func (w *xw) user(u *osm.User) {
 	w.open("user", [][2]string{{"id", strconv.FormatInt(int64(u.ID), 10)}, {"display_name", u.Name}, {"account_created", xwT(u.CreatedAt)}}, false)
 	w.textElem("description", u.Description)
-	w.open("img", [][2]string{{"href", u.Img.Href}}, true)
-	w.open("changesets", [][2]string{{"count", strconv.Itoa(u.Changesets.Count)}}, true)
-	w.open("traces", [][2]string{{"count", strconv.Itoa(u.Traces.Count)}}, true)
+	w.leaf("img", [][2]string{{"href", u.Img.Href}})
+	w.leaf("changesets", [][2]string{{"count", strconv.Itoa(u.Changesets.Count)}})
+	w.leaf("traces", [][2]string{{"count", strconv.Itoa(u.Traces.Count)}})
 	w.open("blocks", nil, false)
-	w.open("received", [][2]string{{"count", strconv.Itoa(u.Blocks.Received.Count)}, {"active", strconv.Itoa(u.Blocks.Received.Active)}}, true)
+	w.leaf("received", [][2]string{{"count", strconv.Itoa(u.Blocks.Received.Count)}, {"active", strconv.Itoa(u.Blocks.Received.Active)}})
 	w.close("blocks")
-	w.open("home", [][2]string{{"lat", xwF(u.Home.Lat)}, {"lon", xwF(u.Home.Lon)}, {"zoom", strconv.Itoa(u.Home.Zoom)}}, true)
+	w.leaf("home", [][2]string{{"lat", xwF(u.Home.Lat)}, {"lon", xwF(u.Home.Lon)}, {"zoom", strconv.Itoa(u.Home.Zoom)}})
 	w.open("languages", nil, false)
 	for _, l := range u.Languages {
 		w.textElem("lang", l)
 	}
 	w.close("languages")
 	w.open("messages", nil, false)
-	w.open("received", [][2]string{{"count", strconv.Itoa(u.Messages.Received.Count)}, {"unread", strconv.Itoa(u.Messages.Received.Unread)}}, true)
-	w.open("sent", [][2]string{{"count", strconv.Itoa(u.Messages.Sent.Count)}}, true)
+	w.leaf("received", [][2]string{{"count", strconv.Itoa(u.Messages.Received.Count)}, {"unread", strconv.Itoa(u.Messages.Received.Unread)}})
+	w.leaf("sent", [][2]string{{"count", strconv.Itoa(u.Messages.Sent.Count)}})
 	w.close("messages")
 	w.close("user")
 }
